@@ -116,6 +116,11 @@ TEMPLATES = [
     "a :: < ? , a > g , a = a", "< a s a < ? , a > > :: a , a",
     # comparisons / shifts using `<` `>`: these DO split
     "a < ? , a > ? a", "a < ? ? , a > a", "a < a , a :: < a , ? > g",
+    # the other expression forms the property lists, each next to another argument: macros, ranges, method calls, fields, casts,
+    # references / negation, shifts and comparisons, assignments inside an alias, blocks (`b` = `{ a }`, `k` = `[a, a]`)
+    "a ! g , ?", "a ! b ? ?", "a .. ? , a", "a ..= ? , a", ".. ? , a", "a . a g , ?", "a . 1 . ? , a", "a s a , ?", "a s & ? , a",
+    "a = ? , a = ?", "a = a = ? , a", "a == ? , a", "& ? , - ? , ! ?", "a && ? , a", "a << ? , a", "a >> ? , a", "a <= ? , a", "a >= ? , a",
+    "g g , ?", "b , ? , k", "a b , ?", "k . a , ?", "a -= ? , a", "a |= ? , a", "a != ? , a",
     # nesting
     "a :: < a :: < ? , a > , a > g", "a :: < < a s a < ? , a > > :: a , a > g", "a :: < a , a > :: a :: < ? , a > g",
 ]
@@ -147,8 +152,10 @@ def template_fixed(t, spacing=False):
             fixed.append((pos, K_IDENT, ord("a"), 0, None)); pos += 1
         elif w == "s":
             fixed.append((pos, K_IDENT, ord("s"), 1, None)); pos += 1
-        elif w == "g":
-            fixed.append((pos, K_GROUP, ord("("), 0, None)); pos += 1
+        elif w == "1":
+            fixed.append((pos, K_LIT, ord("1"), 0, None)); pos += 1
+        elif w in ("g", "b", "k"):
+            fixed.append((pos, K_GROUP, ord({"g": "(", "b": "{", "k": "["}[w]), 0, None)); pos += 1
         else:
             for i, ch in enumerate(w):
                 fixed.append((pos, K_PUNCT, ord(ch), 0, (1 if i + 1 < len(w) else 0) if spacing else None)); pos += 1
@@ -202,7 +209,8 @@ def explore(tier, prop, passes=None, templates=None):
         jobs.append(("template `%s`" % (t if len(t) < 60 else t[:40] + " ... (%d token trees)" % n), FULL if prop == "C16" else ANY, n, fixed))
     if templates:
         res["passes"].append({"name": "templates", "alphabet": FULL["text"], "templates": templates,
-                              "meaning": "`?` = any one token tree of the alphabet; `a` identifier, `s` keyword `as`, `g` group `(a, a)`; all spacing symbolic"})
+                              "meaning": "`?` = any one token tree of the alphabet; `a` identifier, `s` keyword `as`, `g` / `b` / `k` the groups `(a, a)` / `{ a }` / `[a, a]`; "
+                                         "spacing symbolic (C16) or as written (C18 stress sequences)"})
     all_recs, total = [], {}
     for ji, (pname, al, n, fixed) in enumerate(jobs):
         outdir = os.path.join(scratch, "paths-%d-%d" % (ji, n))
